@@ -1,2 +1,3 @@
 pub mod c01;
 pub mod c18;
+pub mod c19;
